@@ -415,7 +415,7 @@ def record(rng, nhosts=3, max_unprep=3, cfg=None, bias=None):
         cfg = {"pv": rng.choice([4, 5]), "sks": rng.choice(["none", "ks"]), "cks": rng.choice(["none", "ks", "ks2"]),
                "ids": rng.choice([0, 1, 1, 2]), "spec": 0}
         if rng.random() < 0.4:                    # the configurations explored with a speculative execution
-            cfg.update(cks="ks", ids=rng.choice([0, 1]), spec=1)
+            cfg.update(sks="ks", cks="ks", ids=rng.choice([1, 2]), spec=1)
     h = ReprepareHarness(nhosts, cfg)
     events = []
     unprep = 0
